@@ -206,7 +206,7 @@ private theorem vfaCore_sound {reg : Reg} (hreg : RegOK reg) {vars : Option (Lis
     (hrec : ∀ ty l pv, ty.wf = true → (vars = none ∨ VarsFit reg vars ty l) → rec ty l = .ok pv → Conforms reg ty pv)
     {ty t : Ty} {l : Lit} {pv : PV} (hst : stripNN ty = t) (hwf : t.wf = true) (hnn : t.isNonNull = false)
     (hfit : vars = none ∨ VarsFit reg vars ty l) (hl : ∀ x, l ≠ .var x)
-    (h : vfaCore reg rec t l = .ok pv) :
+    (h : vfaCore vars reg rec t l = .ok pv) :
     Conforms reg t pv ∧ (l.isNull = false → pv.isNone = false) := by
   unfold vfaCore at h
   split at h
@@ -288,10 +288,10 @@ private theorem vfaCore_sound {reg : Reg} (hreg : RegOK reg) {vars : Option (Lis
       · rename_i hk
         split at h
         · rename_i hsl
-          have hv : reg.customParseLiteral n l = .value pv := by
-            cases hp : reg.customParseLiteral n l <;> simp [hp, ParseOut.toR] at h
+          have hv : reg.customParseLiteral n (vars.getD []) l = .value pv := by
+            cases hp : reg.customParseLiteral n (vars.getD []) l <;> simp [hp, ParseOut.toR] at h
             subst h; rfl
-          have hok : CustomOK reg n pv := .inr ⟨l, hsl, hv⟩
+          have hok : CustomOK reg n pv := .inr ⟨l, vars.getD [], hsl, hv⟩
           exact ⟨.custom hk hok, fun _ => hreg.customNotNone n pv hk hok⟩
         · cases h
       · rename_i k hni hne hnc hk
